@@ -59,6 +59,7 @@ func histPool() []poolCall {
 	rootNull := `[{"op":"replace","path":"","value":null},{"op":"add","path":"/x","value":1}]`
 	bad := `[{"op":"add","path":"/a"}]`
 	lim := Opts{Limit: 24}
+	deep14 := strings.Repeat(`{"n":`, 13) + `[1,{"z":null}]` + strings.Repeat("}", 13)
 	return []poolCall{
 		{fn: FnApplyWithOptions, a: d0, patch: pad, opts: ens(Opts{}), v5only: true},
 		{fn: FnApplyWithOptions, a: d0, patch: padTestObj, opts: ens(Opts{}), v5only: true},
@@ -75,6 +76,9 @@ func histPool() []poolCall {
 		{fn: FnApplyIndent, a: d1, patch: ops, indent: "  "},
 		{fn: FnApplyIndent, a: d1, patch: ops, indent: "\t\t"},
 		{fn: FnApplyIndent, a: d1, patch: testWs, indent: "\t"},
+		// a result nested 14 levels, with two different indents
+		{fn: FnApplyIndent, a: deep14, patch: `[{"op":"add","path":"/k","value":[]}]`, indent: " "},
+		{fn: FnApplyIndent, a: deep14, patch: `[{"op":"add","path":"/k","value":[]}]`, indent: "\t\t\t"},
 		{fn: FnApply, a: d1, patch: failTest},
 		{fn: FnApply, a: d1, patch: rootNull},
 		{fn: FnApply, a: `{"a":`, patch: ops},
@@ -101,6 +105,10 @@ func histPool() []poolCall {
 		{fn: FnCreateMergePatch, a: `{"a":[[1],2],"k":{"z":1,"y":2}}`, b: `{"a":[3,2],"k":{"y":2}}`},
 		{fn: FnCreateMergePatch, a: `[{"a":1}]`, b: `[{"a":2},{"b":null}]`},
 		{fn: FnCreateMergePatch, a: `"str"`, b: d0},
+		// arrays of five documents: one diff fails in the middle (work an implementation may have
+		// handed out and must not leave lying around), one succeeds
+		{fn: FnCreateMergePatch, a: `[{"a":1},2,{"b":1},{"c":1},{"d":2}]`, b: `[{"a":2},{"x":1},{"b":2},{"c":3},{"d":1}]`},
+		{fn: FnCreateMergePatch, a: `[{"a":1},{"e":1},{"b":5},{"c":6},{"d":7}]`, b: `[{"a":2},{"e":1},{"b":6,"n":null},{"c":7},{"d":[8]}]`},
 		{fn: FnCreateMergePatch, a: d1, b: d2},
 		{fn: FnEqual, a: d1, b: d2},
 		{fn: FnEqual, a: ` 12`, b: `12`},
